@@ -111,6 +111,21 @@ class Ctx:
             impl, rc, err = C.parallel_lines(impl_cmd, lines)
         else:
             impl, rc, err = C.run_lines(impl_cmd, lines, env=impl_env)
+        if (rc != 0 or len(impl) != len(lines)) and not re.search(
+                r"Sanitizer|runtime error:|Assertion|assert", err or ""):
+            # the harness died without a sanitizer/assert report (killed: timeout or out of memory on a
+            # loaded machine?).  A real crash is deterministic for the same lines: run the stream once more
+            # and only go on to report if it dies again.
+            if stateless:
+                impl2, rc2, err2 = C.parallel_lines(impl_cmd, lines)
+            else:
+                impl2, rc2, err2 = C.run_lines(impl_cmd, lines, env=impl_env)
+            if rc2 == 0 and len(impl2) == len(lines):
+                self.notes.append("stream %s: harness exited with rc=%s once without a report; the re-run "
+                                  "of the same lines was clean (not reproducible, not reported)" % (name, rc))
+                impl, rc, err = impl2, rc2, err2
+            else:
+                impl, rc, err = impl2, rc2, err2
         if rc != 0 or len(impl) != len(lines):
             # crash / sanitizer report: bisect to the first line without output
             bad = None
